@@ -40,19 +40,32 @@ const c17Depth = 4
 // countingLogger turns "visits the same directory twice" into a deterministic
 // non-termination verdict (Find logs each directory it looks in).
 type countingLogger struct {
-	seen  map[string]int
-	calls int
+	mu     sync.Mutex
+	seen   map[string]int
+	calls  int
+	loop   string
+	loopCh chan struct{}
 }
 
-type c17Loop struct{ dir string }
-
 func (l *countingLogger) Sync() error { return nil }
+
+// Debug may be called from any goroutine the code under test cares to start. When the
+// same directory is announced a third time (or after 10000 announcements) the search is
+// declared non-terminating: the caller is told through loopCh and the announcing goroutine
+// is parked for good.
 func (l *countingLogger) Debug(format string, args ...any) {
+	l.mu.Lock()
 	l.calls++
 	msg := fmt.Sprintf(format, args...)
 	l.seen[msg]++
-	if l.seen[msg] > 2 || l.calls > 10000 {
-		panic(c17Loop{msg})
+	over := l.seen[msg] > 2 || l.calls > 10000
+	if over && l.loop == "" {
+		l.loop = msg
+		close(l.loopCh)
+	}
+	l.mu.Unlock()
+	if over {
+		select {}
 	}
 }
 
@@ -65,23 +78,31 @@ type c17Out struct {
 }
 
 func c17Find(start, stop string) (out c17Out) {
-	lg := &countingLogger{seen: map[string]int{}}
-	defer func() {
-		out.Visited = lg.calls
-		if r := recover(); r != nil {
-			if l, ok := r.(c17Loop); ok {
-				out.Loop = l.dir
-			} else {
-				out.Panic = fmt.Sprint(r)
+	lg := &countingLogger{seen: map[string]int{}, loopCh: make(chan struct{})}
+	done := make(chan c17Out, 1)
+	go func() {
+		var o c17Out
+		defer func() {
+			if r := recover(); r != nil {
+				o.Panic = fmt.Sprint(r)
 			}
+			done <- o
+		}()
+		p, err := file.Find(lg, start, stop)
+		o.Path = p
+		if err != nil {
+			o.Err = err.Error()
 		}
 	}()
-	p, err := file.Find(lg, start, stop)
-	out.Path = p
-	if err != nil {
-		out.Err = err.Error()
+	select {
+	case out = <-done:
+	case <-lg.loopCh:
+		out.Loop = lg.loop
 	}
-	return
+	lg.mu.Lock()
+	out.Visited = lg.calls
+	lg.mu.Unlock()
+	return out
 }
 
 type c17Case struct {
